@@ -3,25 +3,20 @@ import MxModel.Proofs.IOSpecStep
 namespace MxModel.IOSpec
 
 theorem clean_parts {st : St} {op : Op} (h : clean st op = true) :
-    trigCellsName st op = false ∧ trigDoubleSpec st op = false ∧ trigRebindSame st op = false ∧
-    trigSheetNone st op = false ∧ trigDirtyDelete st op = false ∧ trigUpdateOnto st op = false := by
+    trigCellsName st op = false ∧ trigDoubleSpec st op = false ∧
+    trigDirtyDelete st op = false ∧ trigUpdateOnto st op = false := by
   simp only [clean, Bool.and_eq_true, Bool.not_eq_true'] at h
-  obtain ⟨⟨⟨⟨⟨a, b⟩, c⟩, d⟩, e⟩, f⟩ := h
-  exact ⟨a, b, c, d, e, f⟩
-
-/-- the four triggers that break the state invariant -/
-def cleanInv (st : St) (op : Op) : Bool :=
-  !trigCellsName st op && !trigDoubleSpec st op && !trigDirtyDelete st op && !trigUpdateOnto st op
+  obtain ⟨⟨⟨a, b⟩, e⟩, f⟩ := h
+  exact ⟨a, b, e, f⟩
 
 theorem rinv_empty : RInv ({} : St) := by
   refine ⟨by simp, by simp, ?_, by simp, by simp, by simp, by simp, ⟨by simp [sp], by simp [sp]⟩⟩
   intro m v
   simp [alookup, EntryOK]
 
-theorem rinv_step (kw : List String) {st : St} (h : RInv st) {op : Op} (hc : cleanInv st op = true) :
+theorem rinv_step (kw : List String) {st : St} (h : RInv st) {op : Op} (hc : clean st op = true) :
     RInv (step kw st op) := by
-  simp only [cleanInv, Bool.and_eq_true, Bool.not_eq_true'] at hc
-  obtain ⟨⟨⟨k1, k2⟩, k5⟩, k6⟩ := hc
+  obtain ⟨k1, k2, k5, k6⟩ := clean_parts hc
   unfold step stepR
   cases op with
   | newModel m =>
@@ -71,10 +66,6 @@ theorem rinv_step (kw : List String) {st : St} (h : RInv st) {op : Op} (hc : cle
     · exact h
     · exact rinv_closeModel h m
 
-theorem cleanInv_of_clean {st : St} {op : Op} (h : clean st op = true) : cleanInv st op = true := by
-  obtain ⟨a, b, _, _, e, f⟩ := clean_parts h
-  simp [cleanInv, a, b, e, f]
-
 theorem rinv_run (kw : List String) : ∀ (ops : List Op) (st : St), RInv st → AllClean kw st ops →
     RInv (run kw st ops) := by
   intro ops
@@ -82,7 +73,7 @@ theorem rinv_run (kw : List String) : ∀ (ops : List Op) (st : St), RInv st →
   | nil => intro st h _; exact h
   | cons op rest ih =>
     intro st h hc
-    exact ih _ (rinv_step kw h (cleanInv_of_clean hc.1)) hc.2
+    exact ih _ (rinv_step kw h hc.1) hc.2
 
 /-! ### a spec dies only with the last reference to its value -/
 
@@ -94,7 +85,7 @@ def removesSpecs : Op → Bool
 
 theorem spec_survives_step (kw : List String) {st : St} (h : RInv st) {op : Op}
     (k1 : trigCellsName st op = false) (k2 : trigDoubleSpec st op = false)
-    (k3 : trigRebindSame st op = false) (k5 : trigDirtyDelete st op = false)
+    (k5 : trigDirtyDelete st op = false)
     (k6 : trigUpdateOnto st op = false) (hop : removesSpecs op = false) :
     ∀ σ ∈ st.specs, (∀ τ ∈ (step kw st op).specs, τ.sid ≠ σ.sid) →
       ∀ r ∈ (step kw st op).refs, ¬ (r.owner.model = σ.group ∧ r.val = σ.val) := by
@@ -119,12 +110,7 @@ theorem spec_survives_step (kw : List String) {st : St} (h : RInv st) {op : Op}
     · rename_i hd; simp only [hd, if_true] at hnot; exact absurd hσ hnot
     · rename_i hd
       simp only [hd] at hnot
-      obtain ⟨prev, hl, g1, g2, g3, g4⟩ := (newPandas_spec (kw := kw) h k1 k2).2 σ hσ hnot
-      intro r hr ⟨hm, hv⟩
-      have := g4 r hr (hm.trans g1) (hv.trans g2)
-      have hval : prev.val = data := by rw [← g2, ← hv, this]; rfl
-      rw [hval] at g3
-      simp [trigRebindSame, hl, hval, g3] at k3
+      exact (newPandas_spec (kw := kw) h k1 k2).2 σ hσ hnot
   | bind o name v =>
     simp only at hnot ⊢
     split
@@ -135,20 +121,7 @@ theorem spec_survives_step (kw : List String) {st : St} (h : RInv st) {op : Op}
       | error e => rw [(setAttr_error hr).1] at hnot; exact absurd hσ hnot
       | ok u =>
         cases u
-        obtain ⟨prev, hl, g1, g2, g3, g4⟩ := (setAttr_ok_spec h hr).2.2.2 σ hσ hnot
-        intro r hr' ⟨hm, hv⟩
-        have := g4 r hr' (hm.trans g1) (hv.trans g2)
-        have hval : prev.val = v := by rw [← g2, ← hv, this]; rfl
-        have htr : v.tracked = true := by
-          have := h.entry o.model prev.val
-          rw [g3] at this
-          rw [← hval]; exact this.2.2.1
-        have hsome : (getSpecFromValue st o.model v).isSome = true := by
-          cases hg : getSpecFromValue st o.model v with
-          | some _ => rfl
-          | none => exact absurd ⟨g1, g2.trans hval⟩ (getSpec_none hg σ hσ)
-        rw [hval] at g3
-        simp [trigRebindSame, hl, hval, htr, hsome, g3] at k3
+        exact (setAttr_ok_spec h hr).2.2.2 σ hσ hnot
   | del o name =>
     simp only at hnot ⊢
     split
@@ -325,7 +298,7 @@ theorem newPandas_rejected {kw : List String} {st : St} (hs : SidOK (sp st)) {o 
         simp only [sp, mkSpec] at this ⊢
         omega
 
-/-! ### run-level facts that need no hypothesis, or only the sheet setter's -/
+/-! ### run-level facts that need no hypothesis -/
 
 theorem sidOK_run (kw : List String) : ∀ (ops : List Op) (st : St), SidOK (sp st) → SidOK (sp (run kw st ops)) := by
   intro ops
@@ -333,37 +306,16 @@ theorem sidOK_run (kw : List String) : ∀ (ops : List Op) (st : St), SidOK (sp 
   | nil => intro st h; exact h
   | cons op rest ih =>
     intro st h
-    exact ih _ (sidOK_strans (strans_step (strict := false) kw st op (fun hh => by cases hh)) h)
-
-/-- no operation of the history sets a sheet to None next to another spec -/
-def AllSheetOK (kw : List String) : St → List Op → Prop
-  | _, [] => True
-  | st, op :: rest => trigSheetNone st op = false ∧ AllSheetOK kw (step kw st op) rest
-
-instance decAllSheetOK (kw : List String) : (st : St) → (ops : List Op) → Decidable (AllSheetOK kw st ops)
-  | _, [] => isTrue trivial
-  | st, op :: rest =>
-    if h : trigSheetNone st op = false then
-      match decAllSheetOK kw (step kw st op) rest with
-      | isTrue h2 => isTrue ⟨h, h2⟩
-      | isFalse h2 => isFalse (fun x => h2 x.2)
-    else isFalse (fun x => h x.1)
+    exact ih _ (sidOK_strans (strans_step kw st op) h)
 
 theorem loc_run (kw : List String) : ∀ (ops : List Op) (st : St), SidOK (sp st) → Loc st.specs →
-    AllSheetOK kw st ops → Loc (run kw st ops).specs := by
+    Loc (run kw st ops).specs := by
   intro ops
   induction ops with
-  | nil => intro st _ hl _; exact hl
+  | nil => intro st _ hl; exact hl
   | cons op rest ih =>
-    intro st hs hl hc
-    have t := strans_step (strict := true) kw st op (fun _ => hc.1)
-    exact ih _ (sidOK_strans t hs) (loc_strans t hs hl) hc.2
-
-theorem allSheetOK_of_allClean (kw : List String) : ∀ (ops : List Op) (st : St), AllClean kw st ops →
-    AllSheetOK kw st ops := by
-  intro ops
-  induction ops with
-  | nil => intro _ _; trivial
-  | cons op rest ih => intro st h; exact ⟨(clean_parts h.1).2.2.2.1, ih _ h.2⟩
+    intro st hs hl
+    have t := strans_step kw st op
+    exact ih _ (sidOK_strans t hs) (loc_strans t hs hl)
 
 end MxModel.IOSpec
